@@ -9,7 +9,9 @@ from hypothesis import strategies as st
 # A pool in which names are prefixes / suffixes of one another and of number tails.
 NAME_POOL = ['x', 'x1', 'xx', 'x_1', 'x_000', 'e5', 'E', 'e', 'j', 'J', 'a', 'b', 'ab', 'a_b', 'ba', 'y', 'yy',
              'LAG_x', 'LAG_y', 'HH__F', 'HH__F1', 'H__F', '_12__F', '_1__F', '_12__F1', 'b1', 'o17', 'xF', 'F', 'k',
-             't', 'X', 'x0', 'l', 'O', 'b101', 'xE', 'e_5', 'E3']
+             't', 'X', 'x0', 'l', 'O', 'b101', 'xE', 'e_5', 'E3',
+             # ordinary names that float() would accept as numbers
+             'inf', 'nan', 'infinity', 'Infinity', 'NaN', 'INF']
 
 FUNCS = ['max', 'min', 'abs', 'sqrt', 'exp', 'log', 'float']
 
@@ -110,7 +112,8 @@ def expression(draw, names, max_leaves=8, funcs=FUNCS, ops=('+', '-', '*', '/', 
             return build(left, depth + 1) + draw(sp) + op + draw(sp) + build(budget - left, depth + 1)
         return atom()
 
-    return build(draw(st.integers(1, max_leaves)), 0)
+    # (sampled_from: st.integers favours the small end, and one-atom expressions exercise little)
+    return build(draw(st.sampled_from(list(range(max_leaves, 0, -1)))), 0)
 
 
 def chance(num, den):
